@@ -14,6 +14,10 @@
 //!    stream id is ScyllaDB's CDC token (first 8 bytes big-endian, normalised);
 //!  * every other statement (null / Murmur3 / unknown partitioner, table or keyspace missing from the snapshot) has the
 //!    default partitioner and the Murmur3 token of the key;
+//!  * `ClusterState::compute_token(ks, table, key)` (the path that bypasses `PreparedStatement`) gives the same token
+//!    as the prepared statement for every table in the snapshot and `UnknownTable` otherwise; for the composite table
+//!    `ks.comp ((a, b))`, a statement whose markers are in the order (b, a) and `compute_token(.., (a, b))` both give
+//!    the token of `len a 0 len b 0`; a key with a missing column is a serialization error;
 //!  * `schema=0`: the documented fallback - every statement, the CDC log table's included, gets the default partitioner
 //!    (recorded in the output, not judged: the driver cannot know the table).
 use super::common::*;
@@ -74,10 +78,21 @@ pub fn run(words: &[&str], ctx: &mut Ctx) -> String {
     topo.keyspaces[0].tables.push(table("t_scylla_cdc_log", "cdc$stream_id"));
     topo.keyspaces[0].tables.push(table("m3", "pk"));
     topo.keyspaces[0].tables.push(table("unk", "pk"));
+    topo.keyspaces[0].tables.push(TableSpec {
+        name: "comp".into(),
+        partition_key: vec![("a".into(), "blob".into()), ("b".into(), "blob".into())],
+        clustering: vec![],
+        regular: vec![("v".into(), "int".into())],
+    });
     let rt = runtime(2);
     rt.block_on(async {
         let handler: ClusterHandler = Box::new(move |r: &Req| match &r.parsed {
             Parsed::Prepare { text } => match table_of(text) {
+                Some((ks, t)) if t == "comp" => {
+                    // `... WHERE b = ? AND a = ?`: marker 0 is key column b (position 1), marker 1 is a (position 0)
+                    let bind = Specs::new(&ks, &t, &[("b", CqlT::Native(T_BLOB)), ("a", CqlT::Native(T_BLOB))]);
+                    vec![Act::Respond(RESP_RESULT, prepared_body(&md5ish(text), &bind, &[1, 0], None))]
+                }
                 Some((ks, t)) => {
                     let bind = Specs::new(&ks, &t, &[("pk", CqlT::Native(T_BLOB))]);
                     vec![Act::Respond(RESP_RESULT, prepared_body(&md5ish(text), &bind, &[0], None))]
@@ -146,7 +161,66 @@ pub fn run(words: &[&str], ctx: &mut Ctx) -> String {
                     expected_tok
                 ));
             }
+            // ClusterState::compute_token (the path that bypasses PreparedStatement): same token for a table in the
+            // snapshot, UnknownTable otherwise
+            let cs = session.get_cluster_state();
+            let ct = cs.compute_token(ks, t, &(id.clone(),));
+            let in_snapshot = schema == 1 && !matches!(label, "absent" | "nks");
+            match (&ct, in_snapshot) {
+                (Ok(c), true) => {
+                    if Some(c.value()) != tok {
+                        ctx.fail(format!(
+                            "{ks}.{t}: ClusterState::compute_token {} differs from PreparedStatement::calculate_token {:?}",
+                            c.value(),
+                            tok
+                        ));
+                    }
+                }
+                (Err(scylla::errors::ClusterStateTokenError::UnknownTable { .. }), false) => {}
+                (other, _) => ctx.fail(format!(
+                    "{ks}.{t}: ClusterState::compute_token gave {:?} (table in the snapshot: {})",
+                    other.as_ref().map(|t| t.value()).map_err(|e| e.to_string()),
+                    in_snapshot
+                )),
+            }
             out.push_str(&format!(" {label}={}", if is_cdc { "cdc" } else { "murmur3" }));
+        }
+        // composite key, markers in the order (b, a): both paths must give the token of  len(a) a 0 len(b) b 0
+        {
+            let text = "SELECT v FROM ks.comp WHERE b = ? AND a = ?";
+            let (la, lb) = (1 + rng.below(20) as usize, rng.below(20) as usize);
+            let (a, b) = (rng.bytes(la), rng.bytes(lb));
+            let mut enc = Vec::new();
+            for c in [&a, &b] {
+                enc.extend_from_slice(&(c.len() as u16).to_be_bytes());
+                enc.extend_from_slice(c);
+                enc.push(0);
+            }
+            let expected = reference_murmur3(&enc);
+            match session.prepare(text).await {
+                Ok(ps) => {
+                    let tok = ps.calculate_token(&(b.clone(), a.clone())).ok().flatten().map(|t| t.value());
+                    if tok != Some(expected) {
+                        ctx.fail(format!("ks.comp: calculate_token {:?} is not the token {} of the key in partition-key order (a, b)", tok, expected));
+                    }
+                    if schema == 1 {
+                        let ct = session.get_cluster_state().compute_token("ks", "comp", &(a.clone(), b.clone())).map(|t| t.value());
+                        if ct.as_ref().ok() != Some(&expected) {
+                            ctx.fail(format!("ks.comp: ClusterState::compute_token {:?} is not the token {}", ct.map_err(|e| e.to_string()), expected));
+                        }
+                        // one value too few / too many: a serialization error, never a token
+                        let short = session.get_cluster_state().compute_token("ks", "comp", &(a.clone(),));
+                        if !matches!(short, Err(scylla::errors::ClusterStateTokenError::Serialization(_))) {
+                            ctx.fail("ks.comp: compute_token with one of two key columns did not fail serialization");
+                        }
+                    }
+                    out.push_str(" comp=ok");
+                }
+                Err(_) => {
+                    ctx.fail("prepare of the composite statement failed");
+                    out.push_str(" comp=prepare-failed");
+                }
+            }
         }
         out
     })
